@@ -501,3 +501,38 @@ package internal
 //@ func (*compiler).CompileFile
 //@   option props=[C13]
 //@   requires $C && file != nil
+
+// ---------------------------------------------------------------------------
+// C02 / C11 / C12: the generated shared cells are named after type ids (vN,
+// pN). The id tables of the generator are injective and stable: an id handed
+// out for a type is returned for that type ever after, and two different types
+// never share an id - so two types never share a cell, for every program.
+//@ macro IDS(M, NX) = M != nil && 0 <= NX && forall(t, int, tmapAt(M, t) == nil || (typeof(tmapAt(M, t)) == typeid("int") && 0 <= dataof(tmapAt(M, t)) && dataof(tmapAt(M, t)) < NX)) && forall(t, int, forall(u, int, implies(tmapAt(M, t) != nil && tmapAt(M, u) != nil && t != u, dataof(tmapAt(M, t)) != dataof(tmapAt(M, u)))))
+//@ macro STABLE(M) = forall(u, int, implies(old(tmapAt(M, u)) != nil, tmapAt(M, u) == old(tmapAt(M, u))))
+
+//@ func (*generator).typeID
+//@   option props=[C13]
+//@   requires g != nil
+//@   requires type-ids-injective-and-below-the-counter: $IDS(g.typeIDs, g.nextTypeID)
+//@   ensures [C02,C12] type-ids-stay-injective: $IDS(g.typeIDs, g.nextTypeID)
+//@   ensures [C02,C12] ids-handed-out-are-never-changed: $STABLE(g.typeIDs) && g.typeIDs == old(g.typeIDs)
+//@   ensures [C02,C12] result-is-the-id-of-the-type: typeof(tmapAt(g.typeIDs, t)) == typeid("int") && dataof(tmapAt(g.typeIDs, t)) == result
+
+//@ func (*generator).predID
+//@   option props=[C13]
+//@   requires g != nil && p != nil
+//@   requires predicate-ids-injective-and-below-the-counter: $IDS(g.predIDs, g.nextPredID)
+//@   ensures [C11,C12] predicate-ids-stay-injective: $IDS(g.predIDs, g.nextPredID)
+//@   ensures [C11,C12] ids-handed-out-are-never-changed: $STABLE(g.predIDs) && g.predIDs == old(g.predIDs)
+
+//@ func (*generatorv2).typeID
+//@   option props=[C13]
+//@   requires g != nil
+//@   requires type-ids-injective-and-below-the-counter: $IDS(g.typeIDs, g.nextTypeID)
+//@   ensures [C20] type-ids-stay-injective: $IDS(g.typeIDs, g.nextTypeID)
+//@   ensures [C20] ids-handed-out-are-never-changed: $STABLE(g.typeIDs) && g.typeIDs == old(g.typeIDs)
+//@   ensures [C20] result-is-the-id-of-the-type: typeof(tmapAt(g.typeIDs, t)) == typeid("int") && dataof(tmapAt(g.typeIDs, t)) == result
+
+//@ func newGenerator
+//@   option props=[C13]
+//@   ensures [C02,C12] fresh-generator-has-empty-injective-id-tables: result != nil && $IDS(result.typeIDs, result.nextTypeID) && $IDS(result.predIDs, result.nextPredID)
